@@ -987,3 +987,309 @@ Proof.
   rewrite <- (Z2Nat.id j) at 1 by lia.
   rewrite (lookup_scalar_katz b sh t) by (try assumption; unfold zlen in Hj; lia). reflexivity.
 Qed.
+
+(* ---------- (I) a different index per batch element ---------------------------------------------- *)
+
+Lemma skipn_repeat {A} (s : A) : forall k a, skipn a (repeat s k) = repeat s (k - a).
+Proof.
+  induction k as [|k IH]; intros a; [destruct a; reflexivity|].
+  destruct a as [|a]; [reflexivity|]. cbn [repeat skipn Nat.sub]. apply IH.
+Qed.
+
+Lemma window_padded (s : Z) k i n X : (i <= length X)%nat -> (n - 1 <= i + k)%nat -> (k <= n - 1)%nat ->
+  firstn (n - 1) (skipn (i + k - (n - 1)) (repeat s k ++ X)) = context n s (firstn i X).
+Proof.
+  intros Hi Hn Hk. destruct (Nat.le_gt_cases i (n - 1)) as [Hc|Hc].
+  - rewrite skipn_app, skipn_repeat, repeat_length.
+    replace (i + k - (n - 1) - k)%nat with 0%nat by lia. cbn [skipn].
+    replace (k - (i + k - (n - 1)))%nat with (n - 1 - i)%nat by lia.
+    rewrite context_short by (rewrite firstn_length; lia). rewrite firstn_length, Nat.min_l by assumption.
+    replace (n - 1)%nat with ((n - 1 - i) + i)%nat at 1 by lia.
+    apply firstn_app_len. apply repeat_length.
+  - rewrite skipn_app, skipn_repeat, repeat_length.
+    replace (k - (i + k - (n - 1)))%nat with 0%nat by lia. cbn [repeat app].
+    replace (i + k - (n - 1) - k)%nat with (i - (n - 1))%nat by lia.
+    rewrite context_long by (rewrite firstn_length; lia). rewrite firstn_length, Nat.min_l by assumption.
+    rewrite firstn_skipn_comm. f_equal. f_equal. lia.
+Qed.
+
+Lemma filter_range_gen a c : forall L s,
+  filter (fun r => Nat.leb a r && Nat.ltb r c) (seq s L) =
+  seq (Nat.max a s) (Nat.min c (s + L) - Nat.max a s).
+Proof.
+  induction L as [|L IH]; intros s.
+  - cbn [seq filter]. replace (Nat.min c (s + 0) - Nat.max a s)%nat with 0%nat by lia. reflexivity.
+  - cbn [seq filter]. rewrite IH.
+    destruct (Nat.leb a s) eqn:A; [apply Nat.leb_le in A|apply Nat.leb_gt in A].
+    + destruct (Nat.ltb s c) eqn:A2; [apply Nat.ltb_lt in A2|apply Nat.ltb_ge in A2]; cbn [andb].
+      * replace (Nat.max a s) with s by lia.
+        replace (Nat.min c (s + S L) - s)%nat with (S (Nat.min c (S s + L) - Nat.max a (S s)))%nat by lia.
+        cbn [seq]. f_equal. f_equal. lia.
+      * replace (Nat.min c (S s + L) - Nat.max a (S s))%nat with 0%nat by lia.
+        replace (Nat.min c (s + S L) - Nat.max a s)%nat with 0%nat by lia. reflexivity.
+    + cbn [andb]. f_equal; lia.
+Qed.
+
+Lemma filter_range L a c : (a <= c)%nat -> (c <= L)%nat ->
+  filter (fun r => Nat.leb a r && Nat.ltb r c) (seq 0 L) = seq a (c - a).
+Proof. intros H1 H2. rewrite filter_range_gen. f_equal; lia. Qed.
+
+Lemma chunks_concat {A} n : forall (ls : list (list A)),
+  Forall (fun x => length x = n) ls -> chunks n (length ls) (concat ls) = ls.
+Proof.
+  induction 1 as [|x ls Hx Hls IH]; [reflexivity|]. cbn [length chunks concat].
+  rewrite firstn_app, firstn_all2 by lia. rewrite Hx, Nat.sub_diag. cbn [firstn]. rewrite app_nil_r.
+  rewrite skipn_app, skipn_all2 by lia. rewrite Hx, Nat.sub_diag. cbn [skipn app].
+  rewrite IH. reflexivity.
+Qed.
+
+Lemma concat_length_const {A} n : forall (ls : list (list A)),
+  Forall (fun x => length x = n) ls -> length (concat ls) = (length ls * n)%nat.
+Proof.
+  induction 1 as [|x ls Hx Hls IH]; [reflexivity|]. cbn [concat length]. rewrite app_length, IH, Hx. lia.
+Qed.
+
+Lemma combine_map_both {A C D} (F : A -> C) (G : A -> D) (l : list A) :
+  combine (map F l) (map G l) = map (fun c => (F c, G c)) l.
+Proof. induction l as [|x l IH]; [reflexivity|]. cbn. rewrite IH. reflexivity. Qed.
+
+Lemma map_snd_combine {A C} : forall (l1 : list A) (l2 : list C), length l1 = length l2 ->
+  map snd (combine l1 l2) = l2.
+Proof.
+  induction l1 as [|x l1 IH]; intros [|y l2] H; cbn in *; try lia; try reflexivity.
+  f_equal. apply IH. lia.
+Qed.
+
+Lemma fold_min_le h0 hr x : In x (h0 :: hr) -> fold_right Z.min h0 hr <= x.
+Proof.
+  induction hr as [|h hr IH]; cbn [fold_right]; intros [->|H]; try lia.
+  - destruct H.
+  - pose proof (IH (or_introl eq_refl)). lia.
+  - destruct H as [->|H]; [lia|]. pose proof (IH (or_intror H)). lia.
+Qed.
+
+Lemma fold_min_in h0 hr : In (fold_right Z.min h0 hr) (h0 :: hr).
+Proof.
+  induction hr as [|h hr IH]; cbn [fold_right]; [left; reflexivity|].
+  destruct (Z.min_spec h (fold_right Z.min h0 hr)) as [[_ ->]|[_ ->]].
+  - right. left. reflexivity.
+  - destruct IH as [E|E]; [left; assumption|right; right; assumption].
+Qed.
+
+Lemma lookup_batch_vec b sh hist B l : lens_ok b sh = true -> (1 <= order sh)%nat ->
+  length l = B -> (2 <= B)%nat -> Forall (fun i => (i <= length hist)%nat) l ->
+  lookup_batch b sh hist B (Vec (map Z.of_nat l)) = Some (batch_rows b sh hist B l).
+Proof.
+  intros Hl Ho HlB HB Hil. unfold lookup_batch. rewrite Hl. cbn [negb].
+  destruct l as [|i0 [|i1 l2]]; cbn [length] in HlB; try lia.
+  set (l := i0 :: i1 :: l2) in *.
+  change (map Z.of_nat l) with (Z.of_nat i0 :: map Z.of_nat (i1 :: l2)).
+  cbv iota beta.
+  destruct (Nat.eqb (order sh) 1) eqn:E1.
+  { f_equal. unfold batch_rows, elem_row. rewrite E1.
+    assert (Hlen : length (combine (seq 0 B) l) = B) by (rewrite combine_length, seq_length; subst l; cbn [length]; lia).
+    revert Hlen. generalize (combine (seq 0 B) l). clear. intros c <-.
+    induction c as [|x c IH]; [reflexivity|]. cbn. f_equal. apply IH. }
+  apply Nat.eqb_neq in E1.
+  set (n := order sh) in *. set (N := Z.of_nat n).
+  set (hl := Z.of_nat i0 :: map Z.of_nat (i1 :: l2)).
+  assert (Ehl : hl = map Z.of_nat l) by reflexivity.
+  set (m := fold_right Z.min (Z.of_nat i0) (map Z.of_nat (i1 :: l2))).
+  assert (Hm_le : forall i, In i l -> m <= Z.of_nat i).
+  { intros i Hi. apply fold_min_le. change (In (Z.of_nat i) (map Z.of_nat l)). apply in_map. assumption. }
+  assert (Hm_in : exists im, In im l /\ m = Z.of_nat im).
+  { pose proof (fold_min_in (Z.of_nat i0) (map Z.of_nat (i1 :: l2))) as H.
+    change (In m (map Z.of_nat l)) in H. apply in_map_iff in H as (im & E & Hin). eauto. }
+  set (k := if 0 <? N - 1 - m then Z.to_nat (N - 1 - m) else 0%nat).
+  assert (Hk : (k <= n - 1)%nat /\ forall i, In i l -> (n - 1 <= i + k)%nat).
+  { destruct Hm_in as (im & Him & Em). subst k. destruct (0 <? N - 1 - m) eqn:Ep.
+    - split; [subst N; lia|]. intros i Hi. specialize (Hm_le i Hi). subst N. lia.
+    - split; [lia|]. intros i Hi. specialize (Hm_le i Hi). subst N. lia. }
+  destruct Hk as [Hk1 Hk2].
+  (* both branches of the padding test, uniformly *)
+  assert (Ehist : (if 0 <? N - 1 - m then repeat (repeat (sos sh) B) (Z.to_nat (N - 1 - m)) ++ hist else hist)
+                  = repeat (repeat (sos sh) B) k ++ hist).
+  { subst k. destruct (0 <? N - 1 - m); reflexivity. }
+  assert (Ehl' : (if 0 <? N - 1 - m then map (fun h => h + (N - 1 - m)) hl else hl)
+                 = map (fun i => Z.of_nat (i + k)) l).
+  { rewrite Ehl. subst k. destruct (0 <? N - 1 - m) eqn:Ep.
+    - rewrite map_map. apply map_ext. intros i. lia.
+    - rewrite <- (map_id (map Z.of_nat l)) at 1. rewrite map_map. apply map_ext. intros i. lia. }
+  fold m. fold hl. rewrite Ehist, Ehl'.
+  set (hist' := repeat (repeat (sos sh) B) k ++ hist).
+  set (g := fun i : nat => Z.of_nat (i + k)).
+  cbv zeta.
+  change (map g l) with (g i0 :: g i1 :: map g l2).
+  cbv iota beta.
+  change (g i0 :: g i1 :: map g l2) with (map g l).
+  rewrite map_length.
+  replace (Nat.eqb (length l) B) with true by (symmetry; apply Nat.eqb_eq; subst l; cbn [length]; lia).
+  cbn [negb].
+  set (C := combine (seq 0 B) l).
+  assert (HC2 : map snd C = l) by (apply map_snd_combine; rewrite seq_length; subst l; cbn [length]; lia).
+  assert (HCl : length C = B) by (subst C; rewrite combine_length, seq_length; subst l; cbn [length]; lia).
+  assert (EC : combine (seq 0 B) (map g l) = map (fun c => (fst c, g (snd c))) C).
+  { subst C. clear. generalize (seq 0 B). induction l as [|x l IH]; intros [|y s]; cbn; try reflexivity.
+    f_equal. apply IH. }
+  rewrite EC, map_map. cbn [fst snd].
+  set (sel := fun c : nat * nat =>
+       map (fun r => nth (fst c) (nth r hist' []) 0)
+           (filter (fun r => (g (snd c) - N <? Z.of_nat r) && (Z.of_nat r <? g (snd c))) (seq 0 (length hist')))).
+  assert (Hsel : forall c, In c C -> sel c = context n (sos sh) (firstn (snd c) (column hist (fst c)))).
+  { intros [bi i] Hc. pose proof (in_combine_l _ _ _ _ Hc) as Hbi. apply in_seq in Hbi.
+    pose proof (in_combine_r _ _ _ _ Hc) as Hi. cbn [fst snd].
+    rewrite Forall_forall in Hil. specialize (Hil i Hi). specialize (Hk2 i Hi).
+    subst sel. cbn [fst snd].
+    assert (HL : length hist' = (k + length hist)%nat) by (subst hist'; rewrite app_length, repeat_length; reflexivity).
+    rewrite (filter_ext _ (fun r => Nat.leb (i + k - (n - 1)) r && Nat.ltb r (i + k))).
+    2:{ intros r. subst g N. cbv beta.
+        destruct (Nat.leb (i + k - (n - 1)) r) eqn:A, (Nat.ltb r (i + k)) eqn:A2;
+          try apply Nat.leb_le in A; try apply Nat.leb_gt in A;
+          try apply Nat.ltb_lt in A2; try apply Nat.ltb_ge in A2; lia. }
+    rewrite filter_range by lia.
+    replace (i + k - (i + k - (n - 1)))%nat with (n - 1)%nat by lia.
+    rewrite (map_ext _ (fun r => nth r (column hist' bi) 0)) by (intros r; symmetry; apply nth_column).
+    rewrite <- (Nat.add_0_r (i + k - (n - 1))) at 1.
+    rewrite <- (map_seq_add (fun r => nth r (column hist' bi) 0) (i + k - (n - 1)) (n - 1) 0).
+    rewrite map_nth_seq by (rewrite column_length; lia).
+    subst hist'. rewrite column_app, column_repeat by lia.
+    apply window_padded; rewrite ?column_length; lia. }
+  set (ws := map sel C).
+  assert (Hws : Forall (fun x => length x = (n - 1)%nat) ws).
+  { subst ws. apply Forall_forall. intros x Hx. apply in_map_iff in Hx as (c & <- & Hc).
+    rewrite (Hsel c Hc). apply context_length. }
+  change (map (fun x => sel x) C) with ws.
+  assert (Hwl : length ws = B) by (subst ws; rewrite map_length; assumption).
+  rewrite (concat_length_const (n - 1) ws Hws), Hwl, Nat.eqb_refl.
+  rewrite <- Hwl at 1. rewrite (chunks_concat (n - 1) ws Hws).
+  f_equal. unfold batch_rows. fold C.
+  assert (Hgl : map g l = map (fun c => g (snd c)) C).
+  { rewrite <- (map_map snd g C), HC2. reflexivity. }
+  rewrite Hgl.
+  subst ws. rewrite combine_map_both, map_map. cbn [fst snd].
+  apply map_ext_in. intros [cb ci] Hc. rewrite (Hsel _ Hc). cbn [fst snd].
+  unfold elem_row. replace (Nat.eqb (order sh) 1) with false by (symmetry; apply Nat.eqb_neq; assumption).
+  apply map_ext. intros v. fold n.
+  pose proof (in_combine_r _ _ _ _ Hc) as Hi. specialize (Hk2 ci Hi).
+  apply lookup1_hidx; rewrite mapwin_length, context_length; subst g N; cbv beta; lia.
+Qed.
+
+Lemma lookup_vec_katz b sh t hist B l : trie_okb b sh (tmap sh t) = true ->
+  tab_okb (vocab sh) (sos sh) t = true -> hist_ok sh hist B ->
+  length l = B -> (2 <= B)%nat -> Forall (fun i => (i <= length hist)%nat) l ->
+  lookup_batch b sh hist B (Vec (map Z.of_nat l)) =
+  Some (spec_at t (order sh) (vocab sh) (sos sh) hist B l).
+Proof.
+  intros Hv Ht Hh HlB HB Hil. apply trie_okb_sound in Hv. apply tab_okb_ok in Ht.
+  destruct Hv as (Hl & Ho & Hrest).
+  rewrite lookup_batch_vec by assumption. f_equal.
+  apply batch_rows_spec; try assumption. exact (conj Hl (conj Ho Hrest)).
+Qed.
+
+Definition wrap_idx (T i : Z) : nat := Z.to_nat ((i + T + 1) mod (T + 1)).
+
+Lemma forward_vec_katz b sh t hist B zs : trie_okb b sh (tmap sh t) = true ->
+  tab_okb (vocab sh) (sos sh) t = true -> hist_ok sh hist B ->
+  length zs = B -> (2 <= B)%nat -> Forall (fun i => - zlen hist - 1 <= i <= zlen hist) zs ->
+  forward b sh hist B (Some (Vec zs)) =
+  Some (AtIdx (spec_at t (order sh) (vocab sh) (sos sh) hist B (map (wrap_idx (zlen hist)) zs))).
+Proof.
+  intros Hv Ht Hh HlB HB Hz. unfold forward, norm_idx.
+  destruct zs as [|z0 [|z1 zs]]; cbn [length] in HlB; try lia.
+  set (l := z0 :: z1 :: zs) in *.
+  replace (Nat.eqb (length l) B) with true by (symmetry; apply Nat.eqb_eq; subst l; cbn [length]; lia).
+  cbn [negb].
+  assert (Hbad : existsb (fun i => (i <? - zlen hist - 1) || (zlen hist <? i)) l = false).
+  { apply not_true_is_false. intros E. apply existsb_exists in E as (x & Hx & Hb).
+    rewrite Forall_forall in Hz. specialize (Hz x Hx). lia. }
+  rewrite Hbad.
+  assert (Hmap : map (fun i => (i + zlen hist + 1) mod (zlen hist + 1)) l
+                 = map Z.of_nat (map (wrap_idx (zlen hist)) l)).
+  { rewrite map_map. apply map_ext_in. intros x Hx. unfold wrap_idx.
+    rewrite Z2Nat.id; [reflexivity|]. apply Z.mod_pos_bound. unfold zlen. lia. }
+  rewrite Hmap. rewrite (lookup_vec_katz b sh t); try assumption; try reflexivity.
+  - rewrite map_length. subst l. cbn [length]. lia.
+  - apply Forall_forall. intros i Hi. apply in_map_iff in Hi as (x & <- & Hx). unfold wrap_idx.
+    pose proof (Z.mod_pos_bound (x + zlen hist + 1) (zlen hist + 1) ltac:(unfold zlen; lia)).
+    unfold zlen in *. lia.
+Qed.
+
+(* ---------- (J) completing the table with (-inf, 0) entries does not change the recursion ---------- *)
+
+Lemma tfind_app t1 t2 g :
+  tfind (t1 ++ t2) g = match tfind t1 g with Some x => Some x | None => tfind t2 g end.
+Proof.
+  induction t1 as [|e t1 IH]; [reflexivity|]. cbn [app tfind].
+  destruct (list_eqb (fst e) g); [reflexivity|apply IH].
+Qed.
+
+Lemma katz_add_absent t k ctx v : tfind t k = None ->
+  katz (t ++ [(k, (NInf, Fin 0))]) ctx v = katz t ctx v.
+Proof.
+  intros Hk.
+  assert (Hf : forall g, tfind (t ++ [(k, (NInf, Fin 0))]) g =
+                         match tfind t g with
+                         | Some x => Some x
+                         | None => if list_eqb k g then Some (NInf, Fin 0) else None
+                         end).
+  { intros g. rewrite tfind_app. cbn [tfind fst snd]. reflexivity. }
+  assert (Hb : forall c, backoff (t ++ [(k, (NInf, Fin 0))]) c = backoff t c).
+  { intros c. unfold backoff. rewrite Hf. destruct (tfind t c) as [[p bo]|]; [reflexivity|].
+    destruct (list_eqb k c); reflexivity. }
+  induction ctx as [|x ctx IH].
+  - cbn [katz]. rewrite Hf. destruct (tfind t [v]) as [[p bo]|]; [reflexivity|].
+    destruct (list_eqb k [v]); reflexivity.
+  - cbn [katz]. rewrite Hf, Hb, IH.
+    destruct (tfind t ((x :: ctx) ++ [v])) as [[p bo]|]; [reflexivity|].
+    destruct (list_eqb k ((x :: ctx) ++ [v])); reflexivity.
+Qed.
+
+Lemma add_missing_tfind lo ks :
+  exists extra, add_missing lo ks = lo ++ extra /\
+                Forall (fun e => snd e = (NInf, Fin 0)) extra.
+Proof.
+  unfold add_missing. revert lo. induction ks as [|k ks IH]; intros lo.
+  - exists []. rewrite app_nil_r. split; [reflexivity|constructor].
+  - cbn [fold_left]. destruct (dhas lo k).
+    + apply IH.
+    + destruct (IH (lo ++ [(k, (NInf, Fin 0))])) as (extra & E & Hex).
+      exists ((k, (NInf, Fin 0)) :: extra). rewrite E, <- app_assoc. split; [reflexivity|].
+      constructor; [reflexivity|assumption].
+Qed.
+
+Lemma katz_add_neutral t extra ctx v : Forall (fun e => snd e = (NInf, Fin 0)) extra ->
+  katz (t ++ extra) ctx v = katz t ctx v.
+Proof.
+  intros H. revert t. induction H as [|[k x] extra Hx Hex IH]; intros t.
+  - rewrite app_nil_r. reflexivity.
+  - cbn [snd] in Hx. subst x.
+    replace (t ++ (k, (NInf, Fin 0)) :: extra) with ((t ++ [(k, (NInf, Fin 0))]) ++ extra)
+      by (rewrite <- app_assoc; reflexivity).
+    rewrite IH. destruct (tfind t k) as [y|] eqn:E.
+    + (* the key is already listed: the appended copy is never reached *)
+      clear IH. assert (Hf : forall g, tfind (t ++ [(k, (NInf, Fin 0))]) g = tfind t g).
+      { intros g. rewrite tfind_app. destruct (tfind t g) eqn:Eg; [reflexivity|].
+        cbn [tfind fst snd]. destruct (list_eqb k g) eqn:Ek; [|reflexivity].
+        apply list_eqb_eq in Ek. subst. congruence. }
+      induction ctx as [|c ctx IHc]; cbn [katz]; unfold backoff; rewrite ?Hf; [reflexivity|].
+      rewrite IHc. reflexivity.
+    + apply katz_add_absent. assumption.
+Qed.
+
+(* the closure step of _build_trie appends only (-inf, 0) entries ([add_missing_tfind]), and
+   such entries are invisible to the recursion ([katz_add_neutral]) *)
+Lemma katz_add_missing lo ks ctx v : katz (add_missing lo ks) ctx v = katz lo ctx v.
+Proof.
+  destruct (add_missing_tfind lo ks) as (extra & -> & Hex). apply katz_add_neutral. assumption.
+Qed.
+
+(* ---------- (K) reload ------------------------------------------------------------------------------ *)
+
+Lemma reload_same b sh hist B ix :
+  infer_shape (vocab sh) (sos sh) b = Some (order sh, gnodes sh, Z.of_nat (maxdesc sh)) ->
+  forall N G S_, infer_shape (vocab sh) (sos sh) b = Some (N, G, S_) ->
+  forward b (mkShape (vocab sh) (sos sh) N G (Z.to_nat S_)) hist B ix = forward b sh hist B ix.
+Proof.
+  intros H N G S_ H'. rewrite H in H'. injection H' as <- <- <-. rewrite Nat2Z.id.
+  destruct sh; reflexivity.
+Qed.
